@@ -15,6 +15,9 @@ type GenOpts struct {
 	SingleLineText bool
 	// RichNames draws titles / annotations from the stress pool.
 	RichNames bool
+	// Inheritance boosts allOf: more object types, more bases, more nested
+	// objects that inherit (C10 / C12 / C20).
+	Inheritance bool
 	// TopPasteAnywhere lets a top-level PASTE stand between later blocks (where
 	// the block before it cannot adopt it), not only right after JSIGHT.
 	TopPasteAnywhere bool
@@ -36,6 +39,9 @@ type gen struct {
 	enumV  map[string]string // enum -> one of its string values
 	tags   []string
 	macros []*genMacro
+	// reservedF: path numbers reserved by declared tags named like the
+	// automatic tag of a path that will be generated later.
+	reservedF []int
 }
 
 type genMacro struct {
@@ -122,6 +128,9 @@ func (g *gen) refTarget(self int, label string, kinds ...string) (genType, bool)
 }
 
 func (g *gen) propVal(self int, depth int) Val {
+	if g.o.Inheritance && depth < 2 && g.chance(1, 4, "nestedObjBoost") {
+		return Val{Kind: "obj", Obj: g.obj(self, depth+1, g.chance(2, 3, "nestedAllOfBoost2"))}
+	}
 	switch g.intn(10, "valKind") {
 	case 0:
 		if tt, ok := g.refTarget(self, "refT", "obj", "int", "regex", "arr"); ok {
@@ -154,7 +163,11 @@ func (g *gen) propVal(self int, depth int) Val {
 		if depth < 2 {
 			// nested objects may inherit too (only from types without bases of
 			// their own, so that no key can arrive twice)
-			return Val{Kind: "obj", Obj: g.obj(self, depth+1, g.chance(1, 3, "nestedAllOf"))}
+			nested := g.chance(1, 3, "nestedAllOf")
+			if g.o.Inheritance {
+				nested = g.chance(2, 3, "nestedAllOfBoost")
+			}
+			return Val{Kind: "obj", Obj: g.obj(self, depth+1, nested)}
 		}
 	case 8:
 		return Val{Kind: "int", Int: g.num(), Optional: true}
@@ -424,7 +437,11 @@ func GenDoc(t *rapid.T, o GenOpts) *Doc {
 	nt := g.intn(o.MaxTypes+1, "ntypes")
 	for i := 0; i < nt; i++ {
 		k := "obj"
-		switch g.intn(8, "typeKind") {
+		tk := g.intn(8, "typeKind")
+		if o.Inheritance && tk < 4 && g.chance(1, 2, "objBoost") {
+			tk = 7
+		}
+		switch tk {
 		case 0:
 			k = "int"
 		case 1:
@@ -444,6 +461,13 @@ func GenDoc(t *rapid.T, o GenOpts) *Doc {
 	}
 	ng := g.intn(3, "ntags")
 	for i := 0; i < ng; i++ {
+		if g.chance(1, 4, "tagNamedLikePath") {
+			// a declared tag whose name equals the automatic tag of a later path
+			n := g.num()
+			g.reservedF = append(g.reservedF, n)
+			g.tags = append(g.tags, fmt.Sprintf("@p%d", n))
+			continue
+		}
 		g.tags = append(g.tags, fmt.Sprintf("@g%d", g.num()))
 	}
 
@@ -617,7 +641,12 @@ func GenDoc(t *rapid.T, o GenOpts) *Doc {
 	verbs := []string{"GET", "POST", "PUT", "PATCH", "DELETE"}
 	nres := 1 + g.intn(4, "nres")
 	for i := 0; i < nres; i++ {
-		f := g.num()
+		f := 0
+		if len(g.reservedF) > 0 {
+			f, g.reservedF = g.reservedF[0], g.reservedF[1:]
+		} else {
+			f = g.num()
+		}
 		base := fmt.Sprintf("/p%d", f)
 		switch g.intn(7, "pathShape") {
 		case 3:
